@@ -44,7 +44,7 @@ class C13(Property):
             prog = []
             for _ in range(20):
                 if rng.chance(1, 2):
-                    prog.append("tao:0:%d" % rng.below(total + 2))
+                    prog.append("%s:0:%d" % (rng.choice(["tao", "taoh"]), rng.below(total + 2)))
                 else:
                     a = rng.below(total + 1)
                     prog.append("cov:0:%d:%d" % (a, a + rng.below(total - a + 2)))
@@ -56,14 +56,14 @@ class C13(Property):
         if len(parts) != 3:
             return line
         ops = [RANGE.sub("", o) for o in parts[0].split(" ; ")
-               if o.startswith("single") or o.startswith("between") or o == "none" or o.startswith("PANIC") or o[:1] in "nt"]
+               if o.startswith("single") or o.startswith("between") or o == "none" or o.startswith("PANIC") or o.startswith("L=") or o[:1] in "nt"]
         return " ; ".join(ops)
 
     def spec(self, case, impl):
         return None
 
     def spec_raw(self, case, raw):
-        why = check_nav_line(case, raw, only={"tao", "cov"})
+        why = check_nav_line(case, raw, only={"tao", "taoh", "cov"})
         if why and why.startswith("op "):
             m = re.match(r"op (\d+) \(([^)]*)\): got (.*), the tree structure dictates (.*)", why)
             if m and RANGE.sub("", m.group(3)) == RANGE.sub("", m.group(4)):
